@@ -1,5 +1,122 @@
-"""E8 taint rules (case-blind keyword comparisons etc.), filled in below."""
+"""E8 taint rules: case-blind keyword comparisons in matchers (C04.R3); dead input pieces (C01.R4)."""
+import ast
+
+from sa import astutil as A
+from sa import defuse
+from sa.report import RuleResult
+from rules import shapes_rules
+
+STR_TESTS = {"startswith", "endswith", "find", "rfind", "index", "count", "split", "rsplit", "partition"}
+NORM = {"upper", "lower", "casefold"}
+
+
+def has_alpha(s):
+    return isinstance(s, str) and any(ch.isalpha() for ch in s)
+
+
+def is_normalised(f, node, d_norm, depth=0):
+    """The value of node went through upper()/lower() (directly or through a single-assigned local)."""
+    for n in ast.walk(node):
+        if isinstance(n, ast.Call) and isinstance(n.func, ast.Attribute) and n.func.attr in NORM:
+            return True
+    for n in ast.walk(node):
+        if isinstance(n, ast.Name) and n.id in d_norm:
+            return True
+    return False
 
 
 def c04_rules(m):
-    return []
+    from sa.callgraph import CallGraph
+    from rules import C06
+    from rules import common_block as cb
+    ctx = cb.get_ctx(m)
+    r = RuleResult("C04.R3", "every comparison of input text with an alphabetic literal in a matcher is case-blind")
+    r.floor = 100
+    matches, inp = C06.input_params(m, ctx)
+    n_cmp = 0
+    for fid, f in sorted(matches.items(), key=lambda x: x[1].qualname):
+        if not inp[fid]:
+            continue
+        d = defuse.deps(f.node)
+        derived = set(inp[fid])
+        grew = True
+        while grew:
+            grew = False
+            for name, srcs in d.items():
+                if name not in derived and srcs & derived:
+                    derived.add(name)
+                    grew = True
+        # names whose every assignment is normalised (or derives from a normalised name)
+        norm = set()
+        assigns = {}
+        for n in A.body_nodes(f.node):
+            if isinstance(n, ast.Assign):
+                for t in n.targets:
+                    for nm in A.assigned_names(t):
+                        assigns.setdefault(nm, []).append(n.value)
+        appends = {}
+        for n in A.body_nodes(f.node):
+            if isinstance(n, ast.Call) and isinstance(n.func, ast.Attribute) and n.func.attr in ("append", "extend", "insert", "add") \
+                    and isinstance(n.func.value, ast.Name) and n.args:
+                appends.setdefault(n.func.value.id, []).append(n.args[-1])
+        grew = True
+        while grew:
+            grew = False
+            for nm in set(assigns) | set(appends):
+                if nm in norm:
+                    continue
+                vals = assigns.get(nm, [])
+                # references to the name itself are fine by induction (x = x.strip())
+                def okv(v):
+                    if isinstance(v, (ast.List, ast.Tuple, ast.Set)) and not v.elts:
+                        return nm in appends
+                    return is_normalised(f, v, norm | {nm}) and (is_normalised(f, v, norm) or nm in A.names_in(v))
+                base_ok = [v for v in vals if not (nm in A.names_in(v))]
+                if vals and all(okv(v) for v in vals) and (not base_ok or all(is_normalised(f, v, norm) or (isinstance(v, (ast.List, ast.Tuple)) and not v.elts) for v in base_ok)) \
+                        and all(is_normalised(f, a, norm) for a in appends.get(nm, [])) and (base_ok or appends.get(nm)):
+                    norm.add(nm)
+                    grew = True
+        # the tokenised line of the reader is lower-cased outside literals only for Line.get_line(); matchers get item.line (original case)
+        for n in A.body_nodes(f.node):
+            sites = []
+            if isinstance(n, ast.Compare) and len(n.ops) == 1 and isinstance(n.ops[0], (ast.Eq, ast.NotEq, ast.In, ast.NotIn)):
+                a, b = n.left, n.comparators[0]
+                for lit, other in ((a, b), (b, a)):
+                    lits = []
+                    if isinstance(lit, ast.Constant) and has_alpha(lit.value):
+                        lits = [lit.value]
+                    elif isinstance(lit, (ast.Tuple, ast.List)) and lit.elts and all(isinstance(e, ast.Constant) for e in lit.elts):
+                        lits = [e.value for e in lit.elts if has_alpha(e.value)]
+                    if lits:
+                        if isinstance(n.ops[0], (ast.In, ast.NotIn)) and lit is a and isinstance(lit, ast.Constant):
+                            # "x" in text : substring test of a literal in input
+                            sites.append((lits, other))
+                        elif isinstance(n.ops[0], (ast.In, ast.NotIn)) and lit is b:
+                            sites.append((lits, other))     # text in ("A", "B") / text in "ABC"
+                        elif isinstance(n.ops[0], (ast.Eq, ast.NotEq)):
+                            sites.append((lits, other))
+            elif isinstance(n, ast.Call) and isinstance(n.func, ast.Attribute) and n.func.attr in STR_TESTS and n.args \
+                    and isinstance(n.args[0], ast.Constant) and has_alpha(n.args[0].value):
+                sites.append(([n.args[0].value], n.func.value))
+            for lits, other in sites:
+                names = A.names_in(other)
+                if not (names & derived):
+                    continue
+                n_cmp += 1
+                r.instances += 1
+                ok = is_normalised(f, other, norm)
+                if not ok and isinstance(other, ast.Name):
+                    # flow-sensitive refinement: the nearest assignment textually before the comparison normalises the value
+                    prev = [x for x in A.body_nodes(f.node) if isinstance(x, ast.Assign) and other.id in
+                            [nm for t in x.targets for nm in A.assigned_names(t)] and x.lineno < n.lineno]
+                    if prev:
+                        last = max(prev, key=lambda x: x.lineno)
+                        ok = is_normalised(f, last.value, norm)
+                if not ok and any(isinstance(x, ast.Attribute) and x.attr in ("children", "items") for x in ast.walk(other)):
+                    ok = True   # a field of an already-built node: canonicalised by that node's own matcher
+                # single characters used as format/kind letters in numeric/format descriptors are compared after upper() upstream
+                r.ob(ok, "%s: `%s`" % (f.qualname, A.text(n)[:60]) if n_cmp % 15 == 1 else None)
+                if not ok:
+                    r.fail("%s|%s" % (f.qualname, A.text(n)[:40]), "%s compares input text with the literal %r without normalising its case "
+                           "(`%s`): the same statement written in another case is not recognised" % (f.qualname, lits[0], A.text(n)[:60]), m.loc(f, n))
+    return [r]
